@@ -214,6 +214,12 @@ def main():
     counts, miss = gen_c04_tables.generate(REPO)
     vals.update(counts)      # SUBSTREAM_ERRORKINDS_MASK, EK_*, ...
     missing += list(miss)
+    # C06: API / call sites of ConnectionLimits and PeerState, order inside on_connection_established,
+    # accept / reject shapes of the socket transports -> coq/gen/CapsTables.v (sibling script)
+    import gen_c06_caps
+    counts, miss = gen_c06_caps.generate(REPO)
+    vals.update(counts)      # C06_LIMITS_CALL_SITES, C06_TRANSPORT_SHAPES_OK
+    missing += list(miss)
     str_names = []
     for name, path, rx in STR_CONSTS:
         try:
